@@ -129,7 +129,7 @@ func (r *Run) Report(sig, msg string, cas any) bool {
 		// keep one replay per signature (the first = shortest under BFS), up to 25 signatures
 		return false
 	}
-	if len(r.viol) < 25 {
+	if len(r.viol) < 120 {
 		r.viol = append(r.viol, Violation{sig, msg, cas})
 	}
 	return false
@@ -226,7 +226,7 @@ func (r *Run) Finish() int {
 		p := filepath.Join(Root, "replay", r.Prop+"-"+hex.EncodeToString(h[:6])+".json")
 		_ = os.WriteFile(p, rb, 0o644)
 		fmt.Printf("VIOLATION property=%s replay=%s\n", r.Prop, p)
-		fmt.Printf("  signature: %s\n  %s\n", v.Signature, v.Message)
+		fmt.Printf("  signature: %s\n  %s\n", v.Signature, clip300(v.Message))
 	}
 	fmt.Printf("%s %s: %s wall=%.1fs violations=%d known=%d\n", r.Prop, r.Tier, summary(r.Cov), time.Since(r.start).Seconds(), nviol, len(kh))
 	if nviol > 0 {
@@ -242,6 +242,13 @@ func summary(c map[string]any) string {
 		if v, ok := c[k]; ok {
 			s += fmt.Sprintf("%s=%v ", k, v)
 		}
+	}
+	return s
+}
+
+func clip300(s string) string {
+	if len(s) > 300 {
+		return s[:300] + "..."
 	}
 	return s
 }
